@@ -49,6 +49,7 @@ func (o originSet) addAll(p originSet) bool {
 type absVal struct {
 	self   originSet
 	fields map[string]*absVal
+	short  bool // may be a reslice x[:i] that ends inside the visible part of its source: append overwrites the source
 }
 
 func newAbs() *absVal { return &absVal{self: originSet{}, fields: map[string]*absVal{}} }
@@ -65,6 +66,10 @@ func (a *absVal) merge(b *absVal) bool {
 		return false
 	}
 	ch := a.self.addAll(b.self)
+	if b.short && !a.short {
+		a.short = true
+		ch = true
+	}
 	for k, v := range b.fields {
 		if a.field(k).merge(v) {
 			ch = true
@@ -252,6 +257,10 @@ func (c *ownChecker) analyze(f *ssa.Function) bool {
 					if get(x).merge(sliceSource(x.X, get, cellOf)) {
 						changed = true
 					}
+					if x.High != nil && !get(x).short {
+						get(x).short = true
+						changed = true
+					}
 				case *ssa.Phi:
 					for _, e := range x.Edges {
 						if get(x).merge(get(e)) {
@@ -361,7 +370,7 @@ func (c *ownChecker) call(f *ssa.Function, ins ssa.CallInstruction, get func(ssa
 		case "append":
 			dst := get(com.Args[0])
 			// appending to a reslice that ends inside the visible part of a caller's slice overwrites it
-			if sl, ok := com.Args[0].(*ssa.Slice); ok && sl.High != nil {
+			if sl, ok := com.Args[0].(*ssa.Slice); (ok && sl.High != nil) || dst.short {
 				noteWrite(dst, site+" (append into a[:i])")
 			}
 			a := newAbs()
